@@ -66,3 +66,30 @@ package mux
 //@ ensures n >= 4 && b0 >= 128 && b0 <= 191 ==> (specSRTCP(n, b0, b1) == (b1 >= 192 && b1 <= 223))
 //@ ensures n >= 1 && b0 >= 128 && b0 <= 191 ==> (specSRTP(n, b0, b1) == !(n >= 4 && b1 >= 192 && b1 <= 223))
 //@ ensures n >= 1 ==> (specDTLS(n, b0) == (b0 >= 20 && b0 <= 63))
+
+// ---- queueing of datagrams that arrive before their endpoint exists ----
+// Assumed contracts: match functions and the logger do not write memory.
+//@ func functype MatchFunc
+//@ trusted
+//@ modifies nothing
+//@ func (logging.LeveledLogger).Warnf
+//@ trusted
+//@ modifies nothing
+//@ func (logging.LeveledLogger).Infof
+//@ trusted
+//@ modifies nothing
+
+//@ field Mux.pendingPackets props C27 writers (*Mux).dispatch, (*Mux).handlePendingPackets
+//@ field Mux.log props C27 writers NewMux
+
+// A datagram that is queued is queued as a private copy: a freshly allocated
+// slice with the datagram's bytes, so that the caller reusing its read buffer
+// cannot change what is delivered later.
+//@ func (*Mux).dispatch
+//@ props C27
+//@ requires m != nil && m.log != nil && len(m.pendingPackets) < 1<<30
+//@ ensures len(m.pendingPackets) == old(len(m.pendingPackets)) || len(m.pendingPackets) == old(len(m.pendingPackets)) + 1
+//@ ensures len(m.pendingPackets) == old(len(m.pendingPackets)) + 1 ==> fresh(m.pendingPackets[len(m.pendingPackets)-1]) && len(m.pendingPackets[len(m.pendingPackets)-1]) == len(buf)
+//@ ensures len(m.pendingPackets) == old(len(m.pendingPackets)) + 1 ==> (forall i int :: 0 <= i && i < len(buf) ==> m.pendingPackets[len(m.pendingPackets)-1][i] == old(buf[i]))
+//@ ensures len(m.pendingPackets) == old(len(m.pendingPackets)) + 1 ==> len(m.pendingPackets) <= 15
+//@ loop 0 invariant m.pendingPackets == old(m.pendingPackets)
